@@ -183,7 +183,7 @@ Fixpoint item_tables (i : item) : list (option tref) :=
 (* 3. one statement, clause by clause                                                           *)
 (* ------------------------------------------------------------------------------------------- *)
 Inductive clause := ClSelect | ClOn | ClWhere | ClGroupBy | ClHaving | ClOrderBy | ClSetValue | ClSetTarget
-                  | ClInsColumn | ClInsValue.
+                  | ClInsColumn | ClInsValue | ClText.
 
 (* names and in-statement references of the sources; [base] = the tables do_join compares a joined table with *)
 Definition stmt_names (base : list tref) (from : list source) (joins : list (jhow * source * jcond))
@@ -418,6 +418,194 @@ Definition ins_render (kin : kctx) (walias subquery : bool) (ali : option string
         Ok (if walias then fmt_alias body ali (q base) (qalias_quote c) (askw base) else body)
       end
   end.
+
+(* ---- token twins: the statement as tagged tokens; sub-queries, tables, glue are text ---- *)
+Definition stok := (clause * tok)%type.
+Definition tg (cl : clause) (ts : list tok) : list stok := map (pair cl) ts.
+Definition tx (s : string) : list stok := [(ClText, KText s)].
+Definition sflat (qc : option string) (l : list stok) : string := flat qc (map snd l).
+(* the rule a tagged reference obeys in a statement whose flag is [wns] *)
+Definition sref_ok (wns : bool) (st : stok) : Prop := ref_ok (if is_target (fst st) then false else wns) (snd st).
+Definition sref_okb (wns : bool) (st : stok) : bool := ref_okb (if is_target (fst st) then false else wns) (snd st).
+Definition srefs_of (l : list stok) : list (clause * option string * string) :=
+  flat_map (fun st => match st with (cl, KRef _ qual n _) => [(cl, qual, n)] | _ => [] end) l.
+Definition stok_tables (l : list stok) : list (clause * option tref) :=
+  flat_map (fun st => match st with (cl, KRef tb _ _ _) => [(cl, tb)] | _ => [] end) l.
+
+Definition mapT {A} (f : A -> res (list tok)) : list A -> res (list (list tok)) :=
+  fix go (l : list A) : res (list (list tok)) :=
+    match l with [] => Ok [] | y :: r => a <- f y ;; rest <- go r ;; Ok (a :: rest) end.
+Definition opt_bindT {A} (o : option A) (f : A -> res (list tok)) : res (list tok) :=
+  match o with None => Ok [] | Some a => f a end.
+Definition join_toks (k kk : kctx) (srcs : list tref) (ct cq con : ctx) (qc : option string)
+  : list (jhow * source * jcond) -> list (option string) -> res (list (list tok)) :=
+  fix go (l : list (jhow * source * jcond)) (ns : list (option string)) : res (list (list tok)) :=
+    match l with [] => Ok [] | (h, s, cnd) :: r =>
+      a <- (match s with
+            | SrcT t => Ok (table_sql ct (src_ref s (hd None ns)))
+            | SrcQ y => rquery (with_c k cq) true true (hd None ns) y
+            | SrcA n => Ok n end) ;;
+      cn <- (match cnd with
+             | JOn i => b <- itoks kk srcs con i ;; Ok (KText " ON " :: b)
+             | JUsing fs => Ok [KText (" USING (" ++ join "," (map (fq qc) fs) ++ ")")%string]
+             | JCrossCond => Ok [] end) ;;
+      rest <- go r (tl ns) ;;
+      Ok ((KText (jprefix h cnd ++ "JOIN " ++ a)%string :: cn) :: rest) end.
+Definition order_toks (kk : kctx) (srcs : list tref) (c : ctx) (base : ctx) (selects : list item)
+  : list (item * option order) -> res (list (list tok)) :=
+  fix go (l : list (item * option order)) : res (list (list tok)) :=
+    match l with [] => Ok [] | (y, d) :: r =>
+      a <- (match alias_ref selects y with
+            | Some a => Ok [KText (fq (or_ostr (aq base) (q base)) a)]
+            | None => itoks kk srcs c y end) ;;
+      rest <- go r ;;
+      Ok ((match d with Some d' => a ++ [KText (" " ++ order_text d')%string] | None => a end) :: rest) end.
+Definition sets_toks (kk : kctx) (srcs : list tref) (ctgt cval : ctx) : list (term * item) -> res (list (list stok)) :=
+  fix go (l : list (term * item)) : res (list (list stok)) :=
+    match l with [] => Ok [] | (f, v) :: r =>
+      a <- rtoks ctgt f ;; b <- itoks kk srcs cval v ;; rest <- go r ;;
+      Ok ((tg ClSetTarget a ++ tx "=" ++ tg ClSetValue b) :: rest) end.
+Fixpoint sjoin (sep : string) (l : list (list stok)) : list stok :=
+  match l with
+  | [] => []
+  | [x] => x
+  | x :: r => x ++ tx sep ++ sjoin sep r
+  end.
+Definition rows_toks (kk : kctx) (c : ctx) : list (list item) -> res (list (list tok)) :=
+  fix go (l : list (list item)) : res (list (list tok)) :=
+    match l with [] => Ok [] | row :: r =>
+      vs <- mapT (itoks kk [] c) row ;;
+      rest <- go r ;; Ok (jtoks "," vs :: rest) end.
+Definition sparen (b : bool) (l : list stok) : list stok := if b then tx "(" ++ l ++ tx ")" else l.
+Definition salias (walias : bool) (l : list stok) (ali : option string) (askw_ : bool) (aqc qc : option string) : list stok :=
+  if walias then match ali with None => l | Some a => l ++ tx (alias_suffix askw_ aqc qc a) end else l.
+
+Definition sel_toks (kin : kctx) (walias subquery : bool) (ali : option string)
+    (c : cls) (withs : list (string * query)) (distinct : bool) (selects : list item)
+    (from : list source) (joins : list (jhow * source * jcond))
+    (wheres havings : option item) (groupbys : list item) (orderbys : list (item * option order))
+    (l o : option Z) (fu : bool) : res (list stok) :=
+  let k := defaults c kin in
+  let nm := stmt_names (base_tables from) from joins in
+  let srcs := stmt_srcs (base_tables from) from joins in
+  let wns := sel_wns from joins wheres in
+  let base := kc k in
+  let cx := sel_cx k wns in
+  let kk := with_c k (set_wn base wns) in
+  match selects with
+  | [] => Ok []
+  | _ =>
+  w <- (match withs with
+        | [] => Ok ""%string
+        | _ => ws <- withs_loop kk withs ;; Ok ("WITH " ++ join "," ws)%string end) ;;
+  sel <- mapT (itoks kk srcs (cx ClSelect)) selects ;;
+  fr <- from_loop k (cx ClSelect) (cx ClSelect) from (fst nm) ;;
+  js <- join_toks k kk srcs (cx ClSelect) (cx ClSelect) (cx ClOn) (q base) joins (snd nm) ;;
+  wh <- opt_bindT wheres (fun i => a <- itoks kk srcs (cx ClWhere) i ;; Ok (KText " WHERE " :: a)) ;;
+  gb <- (match groupbys with
+         | [] => Ok []
+         | _ => gs <- mapT (fun y => match (if k_gba k then alias_ref selects y else None) with
+                                     | Some a => Ok [KText (fq (or_ostr (aq base) (q base)) a)]
+                                     | None => itoks kk srcs (cx ClGroupBy) y end) groupbys ;;
+                Ok (KText " GROUP BY " :: jtoks "," gs) end) ;;
+  hv <- opt_bindT havings (fun i => a <- itoks kk srcs (cx ClHaving) i ;; Ok (KText " HAVING " :: a)) ;;
+  ob <- (match orderbys with
+         | [] => Ok []
+         | _ => os <- order_toks kk srcs (cx ClOrderBy) base selects orderbys ;;
+                Ok (KText " ORDER BY " :: jtoks "," os) end) ;;
+  let body := tx (w ++ "SELECT " ++ (if distinct then "DISTINCT " else ""))%string ++ tg ClSelect (jtoks "," sel)
+              ++ tx (match fr with [] => "" | _ => " FROM " ++ join "," fr end)%string
+              ++ tg ClOn (match js with [] => [] | _ => KText " " :: jtoks " " js end)
+              ++ tg ClWhere wh ++ tg ClGroupBy gb ++ tg ClHaving hv ++ tg ClOrderBy ob
+              ++ tx (page_tail c KSelect l o ++ (if fu then " FOR UPDATE" else ""))%string in
+  Ok (salias walias (sparen subquery body) ali (askw base) (qalias_quote c) (q base))
+  end.
+
+Definition upd_toks (kin : kctx) (c : cls) (tbl : tref) (sets : list (term * item))
+    (from : list source) (joins : list (jhow * source * jcond)) (wheres : option item) (l : option Z) : res (list stok) :=
+  let k := defaults c kin in
+  let nm := stmt_names (tbl :: base_tables from) from joins in
+  let srcs := stmt_srcs (tbl :: base_tables from) from joins in
+  let wns := upd_wns tbl from joins wheres in
+  let cx := upd_cx k wns in
+  let base := set_wn (kc k) wns in
+  let kk := with_c k base in
+  let cq := set_subq (set_wa base true) true in
+  match sets with
+  | [] => Ok []
+  | _ =>
+  js <- join_toks k kk srcs base cq (cx ClOn) (q base) joins (snd nm) ;;
+  ss <- sets_toks kk srcs (cx ClSetTarget) (cx ClSetValue) sets ;;
+  fr <- from_loop k base cq from (fst nm) ;;
+  wh <- opt_bindT wheres (fun i => a <- itoks kk srcs (cx ClWhere) i ;; Ok (KText " WHERE " :: a)) ;;
+  Ok (tx ((if cls_is_clickhouse c then "ALTER TABLE " else "UPDATE ") ++ table_sql base tbl)%string
+      ++ tg ClOn (match js with [] => [] | _ => KText " " :: jtoks " " js end)
+      ++ tx (if cls_is_clickhouse c then " UPDATE " else " SET ")%string ++ sjoin "," ss
+      ++ tx (match fr with [] => "" | _ => " FROM " ++ join "," fr end)%string
+      ++ tg ClWhere wh ++ tx (page_tail c KUpdate l None))
+  end.
+
+Definition del_toks (kin : kctx) (subquery : bool) (c : cls) (from : list source) (wheres : option item) : res (list stok) :=
+  let k := defaults c kin in
+  let fnames := fst (name_from sub_count 0 from) in
+  let srcs := src_refs from fnames in
+  let wns := del_wns from wheres in
+  let cx := upd_cx k wns in
+  let base := set_wn (kc k) wns in
+  let kk := with_c k base in
+  fr <- from_loop k base (set_subq (set_wa base true) true) from fnames ;;
+  wh <- opt_bindT wheres (fun i => a <- itoks kk srcs (cx ClWhere) i ;; Ok (KText " WHERE " :: a)) ;;
+  Ok (sparen subquery
+        (tx (if cls_is_clickhouse c
+             then "ALTER TABLE" ++ (match fr with [] => "" | _ => " " ++ join "," fr ++ " DELETE" end)
+             else "DELETE" ++ (match fr with [] => "" | _ => " FROM " ++ join "," fr end))%string
+         ++ tg ClWhere wh)).
+
+Definition ins_toks (kin : kctx) (walias subquery : bool) (ali : option string)
+    (c : cls) (into : tref) (columns : list term) (rows : list (list item)) (sel : option query) (replace : bool) : res (list stok) :=
+  let k := defaults c kin in
+  let cx := upd_cx k false in
+  let base := set_wn (kc k) false in
+  let kk := with_c k base in
+  let head := ((if replace then "REPLACE INTO " else "INSERT INTO ") ++ table_sql base into)%string in
+  cols <- (match columns with
+           | [] => Ok []
+           | _ => cs <- rtoks_list (cx ClInsColumn) (fold_right TCons TNil columns) ;;
+                  Ok (KText " (" :: jtoks "," cs ++ [KText ")"]) end) ;;
+  match rows, sel with
+  | [], None => Ok []
+  | _ :: _, _ =>
+      rs <- rows_toks kk (set_subq (set_wa base true) true) rows ;;
+      Ok (tx head ++ tg ClInsColumn cols ++ tx " VALUES (" ++ tg ClInsValue (jtoks "),(" rs) ++ tx ")")
+  | [], Some y =>
+      s <- rquery kk false false (qalias y) y ;;
+      match s with
+      | EmptyString => Ok []
+      | _ => Ok (salias walias (sparen subquery (tx head ++ tg ClInsColumn cols ++ tx (" " ++ s)%string)) ali
+                        (askw base) (qalias_quote c) (q base))
+      end
+  end.
+
+(* the tagged tokens of one statement under the keyword arguments [kin] (QSet has no clauses of its own) *)
+Definition stoks (kin : kctx) (walias subquery : bool) (ali : option string) (x : query) : res (list stok) :=
+  match x with
+  | QSel c withs distinct selects from joins wheres havings groupbys orderbys l o fu _ =>
+      sel_toks kin walias subquery ali c withs distinct selects from joins wheres havings groupbys orderbys l o fu
+  | QUpd c tbl sets from joins wheres l => upd_toks kin c tbl sets from joins wheres l
+  | QDel c from wheres => del_toks kin subquery c from wheres
+  | QIns c into columns rows sel replace _ => ins_toks kin walias subquery ali c into columns rows sel replace
+  | QSet _ _ _ _ _ _ => s <- rquery kin walias subquery ali x ;; Ok (tx s)
+  end.
+Definition stmt_q (kin : kctx) (x : query) : option string :=
+  match x with
+  | QSel c _ _ _ _ _ _ _ _ _ _ _ _ _ | QUpd c _ _ _ _ _ _ | QDel c _ _ | QIns c _ _ _ _ _ _ => q (kc (defaults c kin))
+  | QSet _ _ _ _ _ _ => q (kc kin)
+  end.
+(* str(statement) as tagged tokens, and the references of its own clauses *)
+Definition top_kctx (x : query) : kctx := top_ctx (top_cls x).
+Definition str_stoks (x : query) : res (list stok) := stoks (top_kctx x) false false (qalias x) x.
+Definition stmt_refs (x : query) : list (clause * option string * string) :=
+  match str_stoks x with Ok ts => srefs_of ts | Err _ => [] end.
 
 (* ------------------------------------------------------------------------------------------- *)
 (* 4. naming                                                                                    *)
